@@ -30,7 +30,7 @@ from multiprocessing import Process, Queue, cpu_count
 
 from whoosh.compat import queue, xrange, pickle
 from whoosh.codec import base
-from whoosh.writing import SegmentWriter
+from whoosh.writing import SegmentWriter, IndexingError
 from whoosh.externalsort import imerge
 from whoosh.util import random_name
 
@@ -216,8 +216,30 @@ class MpWriter(SegmentWriter):
         if len(self.tasks) < self.procs:
             self._new_task()
         jobinfo = (filename, length)
-        self.jobqueue.put(jobinfo)
         self.docbuffer = []
+        if not self._put_job(jobinfo):
+            self._subtasks_failed()
+
+    def _put_job(self, job):
+        # The job queue is bounded: when the sub-tasks have died (a document
+        # raised an exception inside a sub-process) nobody takes jobs off it
+        # any more and a plain put() would block for ever
+        while True:
+            try:
+                self.jobqueue.put(job, timeout=1)
+                return True
+            except queue.Full:
+                if not any(task.is_alive() for task in self.tasks):
+                    return False
+
+    def _subtasks_failed(self):
+        # A sub-task that died never reports its segment: every document it
+        # indexed would be missing from the index. Give up the whole writer
+        # (nothing is committed, the index is unlocked) and tell the caller
+        codes = [task.exitcode for task in self.tasks]
+        self.cancel()
+        raise IndexingError("A sub-writer process failed (exit codes %r): "
+                            "nothing was committed" % (codes,))
 
     def cancel(self):
         try:
@@ -235,6 +257,11 @@ class MpWriter(SegmentWriter):
         self._grouping -= 1
 
     def add_document(self, **fields):
+        # Reject here what the plain writer rejects at the call: from now on
+        # the document is only looked at inside a sub-process
+        self._check_state()
+        self._check_fields(self.schema, [name for name in fields.keys()
+                                         if not name.startswith("_")])
         # Add the document to the docbuffer
         self.docbuffer.append((0, fields))
         # If the buffer is full, flush it to the job queue
@@ -271,7 +298,7 @@ class MpWriter(SegmentWriter):
             self._enqueue()
         # Tell the tasks to finish
         for task in self.tasks:
-            self.jobqueue.put(None)
+            self._put_job(None)
 
         # Merge existing segments
         finalsegments = self._merge_segments(mergetype, optimize, merge)
@@ -281,13 +308,19 @@ class MpWriter(SegmentWriter):
             task.join()
 
         # Pull a (run_file_name, fieldnames, segment) tuple off the result
-        # queue for each sub-task, representing the final results of the task
+        # queue for each sub-task, representing the final results of the task.
+        # A sub-task that died (a document raised an exception in it) has no
+        # result: committing without it would silently lose every document it
+        # indexed
         results = []
-        for _ in self.tasks:
-            try:
-                results.append(self.resultqueue.get(timeout=1))
-            except queue.Empty:
-                pass
+        if all(task.exitcode == 0 for task in self.tasks):
+            for _ in self.tasks:
+                try:
+                    results.append(self.resultqueue.get(timeout=10))
+                except queue.Empty:
+                    break
+        if len(results) < len(self.tasks):
+            self._subtasks_failed()
 
         if self.multisegment:
             # If we're not merging the segments, we don't care about the runname
